@@ -77,6 +77,18 @@ pub struct MemInner {
     /// (added for C17) `read_full` / `read_partial` of exactly these files fail with a backend error although the file is
     /// stored and listed (transient read error / throttling); empty = no read faults
     pub fail_reads_of: BTreeSet<(u8, Id)>,
+    /// (added for C08) every `read_partial` call with its arguments, in call order — `reads` does not keep the `cacheable` flag
+    pub preads: Vec<PRead>,
+}
+
+/// (added for C08) one `read_partial` call as the backend saw it
+#[derive(Clone, Debug)]
+pub struct PRead {
+    pub tpe: FileType,
+    pub id: Id,
+    pub cacheable: bool,
+    pub offset: u32,
+    pub length: u32,
 }
 
 type Gate = Arc<dyn Fn(usize, &LogOp) + Send + Sync>;
@@ -147,6 +159,13 @@ impl MemBackend {
             _ = g.fail_reads_of.remove(&(ft_idx(tpe), id));
         }
     }
+    /// (added for C08) the recorded `read_partial` calls (with their `cacheable` flag); `take` empties the record
+    pub fn preads(&self) -> Vec<PRead> {
+        self.inner.lock().unwrap().preads.clone()
+    }
+    pub fn take_preads(&self) -> Vec<PRead> {
+        std::mem::take(&mut self.inner.lock().unwrap().preads)
+    }
     pub fn ids(&self, tpe: FileType) -> Vec<Id> {
         let t = ft_idx(tpe);
         self.inner.lock().unwrap().map.keys().filter(|(x, _)| *x == t).map(|(_, id)| *id).collect()
@@ -214,9 +233,10 @@ impl ReadBackend for MemBackend {
         }
         g.map.get(&(ft_idx(tpe), *id)).cloned().ok_or_else(|| be_err("no such file"))
     }
-    fn read_partial(&self, tpe: FileType, id: &Id, _cacheable: bool, offset: u32, length: u32) -> RusticResult<Bytes> {
+    fn read_partial(&self, tpe: FileType, id: &Id, cacheable: bool, offset: u32, length: u32) -> RusticResult<Bytes> {
         let mut g = self.inner.lock().unwrap();
         g.reads.push((tpe, *id, true));
+        g.preads.push(PRead { tpe, id: *id, cacheable, offset, length });
         if g.fail_reads_of.contains(&(ft_idx(tpe), *id)) {
             return Err(be_err("injected read failure"));
         }
